@@ -328,7 +328,10 @@ class Typer:
         if isinstance(node, (ast.List, ast.ListComp, ast.Set, ast.SetComp, ast.GeneratorExp)):
             if isinstance(node, (ast.List, ast.Set)):
                 return Ty("seq", "list", (union([self.expr(fn, e, env, _depth + 1) for e in node.elts]) if node.elts else ANY,))
-            return Ty("seq", "list", (ANY,))
+            inner = dict(env)
+            for g in node.generators:
+                self._bind(g.target, self._iter_elem(fn, g.iter, inner), inner)
+            return Ty("seq", "list", (self.expr(fn, node.elt, inner, _depth + 1),))
         if isinstance(node, (ast.Dict, ast.DictComp)):
             return Ty("map", "dict", (ANY, ANY))
         if isinstance(node, ast.Tuple):
